@@ -200,6 +200,14 @@ def _emit_copy(gen, root, cp):
             raise X.ExtractError('ANCHOR-LOST copy subst %s: %r' % (cp.file, a))
         text = text.replace(a, b)
         fired.append('SUBST %r -> %r' % (a, b))
+    if cp.array_const:
+        m = re.match(r'\s*(?:pub\s+)?const\s+(\w+)\s*:\s*\[(\w+);\s*(\d+)\]\s*=\s*\[([^\]]*)\]\s*;\s*$', text, re.S)
+        if not m:
+            raise X.ExtractError('array const %s: unexpected shape %r' % (cp.regex, text[:80]))
+        elems = [e.strip() for e in m.group(4).split(',') if e.strip()]
+        text = 'pub exec const %s: [%s; %s] ensures %s@ =~= seq![%s] { [%s] }' % (
+            m.group(1), m.group(2), m.group(3), m.group(1), ', '.join('%s%s' % (e, m.group(2)) for e in elems), ', '.join(elems))
+        fired.append('R10 array const -> exec const with its elements as ensures')
     t3 = publicize(text)
     if t3 != text:
         fired.append('R6 visibility normalised (item and fields made pub)')
